@@ -2196,3 +2196,36 @@ V("C17-revert-fix-abandoned-round-keeps-current-mark","C17",WFL,"""						if !han
 							c.flushObjs.Delete(addr)
 						}
 ""","",rule="C17.R4")
+
+# ---- rules added after batch G
+PRM="pkg/services/object/put/remote.go"; PLS="pkg/services/object/placement/service.go"; PLC="pkg/services/object/put/local.go"; IPC="pkg/innerring/processors/container/process_container.go"; BCS="pkg/local_object_storage/blobstor/common/storage.go"
+V("C11-zero-length-from-any-offset-is-full","C11",BCS,"""		return r.First == 0 && r.Second == 0""","""		return r.Second == 0""",rule="C11.R8")
+V("C27-cache-keeps-unsorted-vectors","C27",PLS,"""	res.Placement = p
+	res.NodeSets, res.err = s.sortContainerNodesFunc(*networkMap, p.NodeSets, obj)
+	if res.err != nil {
+		res.err = fmt.Errorf("sort container nodes for object: %w", res.err)
+	}
+	s.objCache.Add(cacheKey, res)
+	return res.NodeSets, res.err""","""	res.Placement = p
+	sorted, err := s.sortContainerNodesFunc(*networkMap, p.NodeSets, obj)
+	if err != nil {
+		res.err = fmt.Errorf("sort container nodes for object: %w", err)
+	}
+	s.objCache.Add(cacheKey, res)
+	return sorted, res.err""",rule="C27.R6")
+V("C34-attached-eacl-of-any-container","C34",IPC,"""		if id != table.GetCID() {
+			cp.log.Error("additional eACL table in container put request has different container",
+				zap.Stringer("cid", id), zap.Stringer("cidInEACL", table.GetCID()))
+			return
+		}
+""","""		if id != table.GetCID() {
+			cp.log.Warn("additional eACL table in container put request has different container",
+				zap.Stringer("cid", id), zap.Stringer("cidInEACL", table.GetCID()))
+		}
+""",rule="C34.R6")
+V("C25-remote-write-error-left-to-close","C25",PRM,"""	_, err = w.Write(obj.Payload())
+	if err != nil {
+		return fmt.Errorf("could not put object to %s: write object payload into stream: %w", addressLogString(nodeInfo), err)
+	}
+""","""	_, _ = w.Write(obj.Payload())
+""",rule="C25.R9")
